@@ -2,6 +2,15 @@
 import glob, json, os, re, sys
 
 rnd, suffix = sys.argv[1], sys.argv[2]  # e.g. 4 d
+THEME5 = ("Aim for a regression that only shows through a COMPOSITION or at SCALE, inside the property's domain: two operations in "
+          "sequence (parse then emit then parse again, the same command run twice, one conversion after a different one in the same "
+          "process), two features present in the same input (a default AND a long wrapped description, a footer AND a return section, "
+          "a decorator AND a multi-line header, a primary key AND a foreign key, a blacklist AND recursion), several entries where the "
+          "existing tests use one (3+ classes in a file, 3+ models in a document, 10+ parameters, 5+ paragraphs, deeply nested definitions), "
+          "an entry that comes LAST or FIRST among several, or two entries that resemble each other (same prefix in their names, same "
+          "description, same type). Prefer anchored files the earlier participants did not touch. The previous round asked for the following, "
+          "which is still welcome: ")
+theme = THEME5 if rnd == "5" else ""
 out = "/tmp/wt/prompts%s" % rnd
 os.makedirs(out, exist_ok=True)
 tpl = open("/tmp/wt/prompts3/C01.txt").read()
@@ -33,6 +42,7 @@ for pid, p in props.items():
              "IMPORTANT: the triggering input must lie INSIDE the domain the property is quantified over (as written above) - a regression "
              "that only shows on inputs the property does not talk about does not count.\n\n"
              % (len(prev), "; ".join("(%d) %s" % (i + 1, x) for i, x in enumerate(prev))))
+    body = body.replace("Aim for a regression whose effect depends on the SHAPE OF THE DATA", theme + "Aim for a regression whose effect depends on the SHAPE OF THE DATA")
     text = tpl[:head_end].replace("/tmp/wt/C01c", wt) + body + tpl[task_start:].replace("/tmp/wt/C01c", wt).replace("demo_C01", "demo_%s" % pid)
     open(os.path.join(out, pid + ".txt"), "w").write(text)
 print(open(os.path.join(out, "C05.txt")).read()[:6000])
